@@ -8,6 +8,9 @@ Inductive allowed : cstate -> cstate -> Prop :=
   | al_lock : allowed CSubscribed CSending
   | al_sent : allowed CSending CWaiting
   | al_send_done r : allowed CSending (CDone r)
+  | al_wire : allowed CSending CWritten
+  | al_ret : allowed CWritten CWaiting
+  | al_ret_done r : allowed CWritten (CDone r)
   | al_wait_done r : allowed CWaiting (CDone r).
 
 Lemma tstep_callers s l s' : tstep s l s' ->
@@ -109,7 +112,7 @@ Qed.
 
 (* ------------------------------------------------------------------ who has a receiver: exactly the calls between
    activate_cloned and completion *)
-Definition active (st : cstate) : bool := match st with CSubscribed | CSending | CWaiting => true | _ => false end.
+Definition active (st : cstate) : bool := match st with CSubscribed | CSending | CWritten | CWaiting => true | _ => false end.
 Definition active_at (s : sys) (i : nat) : bool :=
   match nth_error (callers s) i with Some c => active (c_st c) | None => false end.
 Definition has_cursor (s : sys) (i : nat) : bool := match cursor (ch s) i with Some _ => true | None => false end.
@@ -159,6 +162,15 @@ Proof.
     + rewrite cursor_drop_other, nth_error_upd_other by assumption. apply IH.
   - (* push *) apply try_push_pushed in H0. destruct H0 as (_ & Hr & _). unfold cursor. rewrite Hr. apply IH.
   - (* hijack *) rewrite hijack_cursor, hijack_callers. apply IH.
+  - (* wire *) destruct (Nat.eq_dec j i) as [->|Hne].
+    + erewrite nth_error_upd_same by eassumption. cbn. specialize (IH i). rewrite H in IH. rewrite H0 in IH. exact IH.
+    + rewrite nth_error_upd_other by assumption. apply IH.
+  - (* ret, noreply *) destruct (Nat.eq_dec j i) as [->|Hne].
+    + rewrite cursor_drop_same. erewrite nth_error_upd_same by eassumption. reflexivity.
+    + rewrite cursor_drop_other, nth_error_upd_other by assumption. apply IH.
+  - (* ret *) destruct (Nat.eq_dec j i) as [->|Hne].
+    + erewrite nth_error_upd_same by eassumption. cbn. specialize (IH i). rewrite H in IH. rewrite H0 in IH. exact IH.
+    + rewrite nth_error_upd_other by assumption. apply IH.
 Qed.
 
 Lemma rcv_inv cs cap t tr s : reach cs cap t tr s -> forall i, has_cursor s i = active_at s i.
@@ -196,6 +208,7 @@ Proof.
   - apply try_push_pushed in H0. destruct H0 as (Hl & Hr & _). unfold cursor, tail. rewrite Hr, Hl, app_length. cbn.
     intros Hq. apply IH in Hq. unfold tail in Hq. lia.
   - rewrite hijack_cursor, hijack_tail. apply IH.
+  - (* ret, noreply *) intros Hq. eapply (Hdrop i (ch s)); eauto.
 Qed.
 
 Lemma curle_inv cs cap t tr s : reach cs cap t tr s -> forall i p, cursor (ch s) i = Some p -> p <= tail (ch s).
@@ -302,7 +315,7 @@ Qed.
 (* ------------------------------------------------------------------ a waiting caller has missed nothing: no answer to it lies
    behind its cursor *)
 Definition seen_ok (s : sys) : Prop :=
-  forall i c p q m, nth_error (callers s) i = Some c -> c_st c = CWaiting -> cursor (ch s) i = Some p -> q < p ->
+  forall i c p q m, nth_error (callers s) i = Some c -> (c_st c = CWaiting \/ c_st c = CWritten) -> cursor (ch s) i = Some p -> q < p ->
                     nth_error (log (ch s)) q = Some (IMsg m) -> answers m (c_serial c) = false.
 
 Lemma seen_step s l s' : tstep s l s' -> causal s -> (forall i p, cursor (ch s) i = Some p -> p <= tail (ch s)) ->
@@ -316,13 +329,13 @@ Proof.
     - rewrite nth_error_upd_other in Hj by assumption. now right. }
   destruct H; cbn [callers ch with_ch with_callers with_wlock with_wire with_reader with_socket finish] in *;
     rewrite ?log_subscribe, ?log_drop, ?log_close, ?cursor_close in *.
-  - (* sub *) destruct (Hupd _ _ _ H Hc') as [[-> ->]|[Hne Hj]]; [discriminate|].
+  - (* sub *) destruct (Hupd _ _ _ H Hc') as [[-> ->]|[Hne Hj]]; [destruct Hst; discriminate|].
     rewrite cursor_subscribe in Hcur. destruct (cursor (ch s) j) as [p0|] eqn:E.
     + inversion Hcur; subst p0. eapply IH; eauto.
     + pose proof (rcv_step s (LSub i) _ (TSub s i c H H0)) as _. clear - E Hcur Hne. destruct (Nat.eqb i j) eqn:Eb; [|discriminate].
       apply Nat.eqb_eq in Eb. congruence.
-  - (* lock *) destruct (Hupd _ _ _ H Hc') as [[-> ->]|[Hne Hj]]; [discriminate | eapply IH; eauto].
-  - (* send noreply *) destruct (Hupd _ _ _ H Hc') as [[-> ->]|[Hne Hj]]; [discriminate|].
+  - (* lock *) destruct (Hupd _ _ _ H Hc') as [[-> ->]|[Hne Hj]]; [destruct Hst; discriminate | eapply IH; eauto].
+  - (* send noreply *) destruct (Hupd _ _ _ H Hc') as [[-> ->]|[Hne Hj]]; [destruct Hst; discriminate|].
     rewrite cursor_drop_other in Hcur by assumption. eapply IH; eauto.
   - (* send ok: the call is on the wire from now on; before, nothing could answer it *)
     destruct (Hupd _ _ _ H Hc') as [[-> ->]|[Hne Hj]]; [|eapply IH; eauto].
@@ -331,10 +344,10 @@ Proof.
     assert (Hu : unsent s (c_serial c) = true) by (eapply unsent_intro; [eassumption | now rewrite H0]).
     rewrite (Hca m (c_serial c)) in Hu; [discriminate | | assumption].
     unfold items. apply in_app_iff. left. eapply nth_error_In; eassumption.
-  - (* send fail *) destruct (Hupd _ _ _ H Hc') as [[-> ->]|[Hne Hj]]; [discriminate|].
+  - (* send fail *) destruct (Hupd _ _ _ H Hc') as [[-> ->]|[Hne Hj]]; [destruct Hst; discriminate|].
     rewrite cursor_drop_other in Hcur by assumption. eapply IH; eauto.
   - (* recv answer *) apply try_recv_got in H1. destruct H1 as (p0 & Hc0 & Hn0 & Hl & Hcl & Hci & Hco).
-    destruct (Hupd _ _ _ H Hc') as [[-> ->]|[Hne Hj]]; [discriminate|].
+    destruct (Hupd _ _ _ H Hc') as [[-> ->]|[Hne Hj]]; [destruct Hst; discriminate|].
     rewrite cursor_drop_other in Hcur by assumption. rewrite Hco in Hcur by assumption. rewrite Hl in Hn. eapply IH; eauto.
   - (* recv skip *) apply try_recv_got in H1. destruct H1 as (p0 & Hc0 & Hn0 & Hl & Hcl & Hci & Hco). rewrite Hl in Hn.
     destruct (Nat.eq_dec j i) as [->|Hne].
@@ -344,11 +357,11 @@ Proof.
       * eapply IH; eauto. lia.
     + rewrite Hco in Hcur by assumption. eapply IH; eauto.
   - (* recv fail *) apply try_recv_got in H1. destruct H1 as (p0 & Hc0 & Hn0 & Hl & Hcl & Hci & Hco).
-    destruct (Hupd _ _ _ H Hc') as [[-> ->]|[Hne Hj]]; [discriminate|].
+    destruct (Hupd _ _ _ H Hc') as [[-> ->]|[Hne Hj]]; [destruct Hst; discriminate|].
     rewrite cursor_drop_other in Hcur by assumption. rewrite Hco in Hcur by assumption. rewrite Hl in Hn. eapply IH; eauto.
-  - (* recv closed *) destruct (Hupd _ _ _ H Hc') as [[-> ->]|[Hne Hj]]; [discriminate|].
+  - (* recv closed *) destruct (Hupd _ _ _ H Hc') as [[-> ->]|[Hne Hj]]; [destruct Hst; discriminate|].
     rewrite cursor_drop_other in Hcur by assumption. eapply IH; eauto.
-  - (* timeout *) destruct (Hupd _ _ _ H Hc') as [[-> ->]|[Hne Hj]]; [discriminate|].
+  - (* timeout *) destruct (Hupd _ _ _ H Hc') as [[-> ->]|[Hne Hj]]; [destruct Hst; discriminate|].
     rewrite cursor_drop_other in Hcur by assumption. eapply IH; eauto.
   - eapply IH; eauto.
   - (* push: behind the cursors nothing changes *)
@@ -359,6 +372,18 @@ Proof.
   - eapply IH; eauto.
   - eapply IH; eauto.
   - rewrite hijack_callers in Hc'. rewrite hijack_cursor in Hcur. rewrite hijack_log in Hn. eapply IH; eauto.
+  - (* wire: the call is on the wire from now on; before, nothing could answer it *)
+    destruct (Hupd _ _ _ H Hc') as [[-> ->]|[Hne Hj]]; [|eapply IH; eauto].
+    cbn [c_serial set_st]. unfold answers. destruct (m_rs m) as [r|] eqn:Er; [|reflexivity].
+    destruct (N.eqb r (c_serial c)) eqn:Eq; [|reflexivity]. apply N.eqb_eq in Eq. subst r. exfalso.
+    assert (Hu : unsent s (c_serial c) = true) by (eapply unsent_intro; [eassumption | now rewrite H0]).
+    rewrite (Hca m (c_serial c)) in Hu; [discriminate | | assumption].
+    unfold items. apply in_app_iff. left. eapply nth_error_In; eassumption.
+  - (* ret, noreply *) destruct (Hupd _ _ _ H Hc') as [[-> ->]|[Hne Hj]]; [destruct Hst; discriminate|].
+    rewrite cursor_drop_other in Hcur by assumption. eapply IH; eauto.
+  - (* ret: nothing was missed while send() was returning *)
+    destruct (Hupd _ _ _ H Hc') as [[-> ->]|[Hne Hj]]; [|eapply IH; eauto].
+    cbn [c_serial set_st]. eapply (IH i c p q m H (or_intror H0)); eauto.
 Qed.
 
 Lemma seen_inv cs cap t tr s : reach cs cap t tr s -> seen_ok s.
@@ -385,7 +410,7 @@ Proof.
     destruct Hs; cbn [callers with_ch with_callers with_wlock with_wire with_reader with_socket finish] in Hc';
       try (eapply IH; eassumption);
       try (destruct (Hupd _ _ _ H Hc') as [[-> ->]|[Hne Hj]]; [cbn; try discriminate | eapply IH; eassumption]).
-    cbn in Hk. congruence.
+    all: cbn in Hk; congruence.
 Qed.
 
 (* ------------------------------------------------------------------ once the reader has failed, the channel is closed *)
